@@ -598,10 +598,66 @@ def _sub_job(a):
     return ck.export()
 
 
-def run_parallel(ck, modname, parts, procs=None):
-    """parts: [(function name, extra args tuple)]; each runs as fn(ck, sh, mm, *extra) in a worker."""
+def _sub_proc(conn, a):
+    try:
+        conn.send(('ok', _sub_job(a)))
+    except BaseException as e:            # harness errors travel to the parent as such
+        import traceback as _tb
+        conn.send(('err', '%s\n%s' % (repr(e), _tb.format_exc())))
+    finally:
+        conn.close()
+
+
+def run_parallel(ck, modname, parts, procs=None, part_timeout_s=None):
+    """parts: [(function name, extra args tuple)]; each runs as fn(ck, sh, mm, *extra) in its own process.
+
+    Every part has a hard wall-clock budget (in-process z3 does not always honour its own timeout): a part
+    that exceeds it is killed and recorded as ONE inconclusive obligation -- never as success."""
     import multiprocessing as mp
+    if part_timeout_s is None:
+        part_timeout_s = 600 if ck.tier == 'quick' else 7200
+    nproc = procs or min(16, os.cpu_count() or 1)
     jobs = [(modname, fn, ck.pid, ck.args, tuple(extra)) for fn, extra in parts]
-    with mp.Pool(procs or min(16, os.cpu_count() or 1)) as pool:
-        for st in pool.imap_unordered(_sub_job, jobs, chunksize=1):
-            ck.merge(st)
+    pending = list(enumerate(jobs))
+    running = {}
+    errors = []
+    while pending or running:
+        while pending and len(running) < nproc:
+            i, a = pending.pop(0)
+            pc_, cc = mp.Pipe(duplex=False)
+            p = mp.Process(target=_sub_proc, args=(cc, a), daemon=True)
+            p.start()
+            cc.close()
+            running[i] = (p, pc_, time.time(), a)
+        done = []
+        for i, (p, conn, t0, a) in running.items():
+            got = None
+            try:
+                if conn.poll(0.05):
+                    got = conn.recv()
+            except (EOFError, OSError):
+                got = ('err', 'worker died without a result')
+            if got is not None:
+                p.join(5)
+                if got[0] == 'ok':
+                    ck.merge(got[1])
+                else:
+                    errors.append('%s%r: %s' % (a[1], a[4], got[1]))
+                done.append(i)
+            elif not p.is_alive():
+                errors.append('%s%r: worker exited with code %r' % (a[1], a[4], p.exitcode))
+                done.append(i)
+            elif time.time() - t0 > part_timeout_s:
+                p.terminate()
+                p.join(5)
+                if p.is_alive():
+                    p.kill()
+                name = '%s%r' % (a[1], a[4])
+                ck.record(name + '/part exceeded its wall-clock budget of %d s' % part_timeout_s, 'inconclusive',
+                          detail='killed; nothing this part explored is counted')
+                ck.notes.append('part %s killed after %d s' % (name, part_timeout_s))
+                done.append(i)
+        for i in done:
+            running.pop(i)[1].close()
+    if errors:
+        raise symx.HarnessError('sub-check failed: ' + ' | '.join(e[:1500] for e in errors))
